@@ -29,8 +29,20 @@ class Resolver:
             elif isinstance(st, ast.AugAssign):
                 for nm in target_names(st.target):
                     self.defs.setdefault(nm, []).append(None)
-            elif isinstance(st, (ast.For, ast.comprehension)):
+            elif isinstance(st, ast.For):
                 self._bind_iter(st.target, st.iter)
+            elif isinstance(st, ast.comprehension):
+                # comprehension variables are scoped: never inlined
+                for nm in target_names(st.target):
+                    self.defs.setdefault(nm, []).append(None)
+            elif isinstance(st, ast.Call) and isinstance(
+                    st.func, ast.Attribute) and isinstance(
+                        st.func.value, ast.Name) and st.func.attr in (
+                            "append", "extend", "insert", "remove", "pop",
+                            "update", "add", "clear", "sort", "reverse",
+                            "setdefault", "fill", "set"):
+                # a local that is mutated is not its initial value
+                self.defs.setdefault(st.func.value.id, []).append(None)
             elif isinstance(st, ast.With):
                 for i in st.items:
                     if i.optional_vars is not None:
